@@ -11,7 +11,7 @@ class C09(core.Check):
     pid = 'C09'
     driver = 'drv_c09'
     quick_cases = 3000
-    thorough_cases = 60000
+    thorough_cases = 45000
     rule = ('3 of 4 cases are histories: a pandas DataFrame (0-12 rows, and a few percent with a length from the size '
             'ladder of harness/stress.py: 17..259 at level 0, ..4099 at level 1, ..65539 at level 2; every column an '
             'injective function of a hidden row id; 30% of the frames take 2-5 column names, the target and the split '
